@@ -14,7 +14,6 @@ import (
 	"os"
 	"strconv"
 	"strings"
-	"sync"
 	"time"
 
 	"github.com/redis/rueidis"
@@ -57,26 +56,9 @@ func genDelays(r *gen.Rand) []int64 {
 	return d
 }
 
-type dlog struct {
-	mu    sync.Mutex
-	calls []int
-	hook  func(attempts int)
-}
-
-func delayFn(tab []int64, l *dlog) rueidis.RetryDelayFn {
-	return func(attempts int, cmd rueidis.Completed, err error) time.Duration {
-		l.mu.Lock()
-		l.calls = append(l.calls, attempts)
-		h := l.hook
-		l.mu.Unlock()
-		if h != nil {
-			h(attempts)
-		}
-		if attempts >= 1 && attempts-1 < len(tab) {
-			return time.Duration(tab[attempts-1])
-		}
-		return -1
-	}
+// delayFn answers from the table and records every consultation with its position in the arrival order.
+func delayFn(tab []int64, l *ro.ConsultLog, d *fs.Deploy) rueidis.RetryDelayFn {
+	return ro.DelayFn(tab, l, d.Seq)
 }
 
 var stepKinds = []string{"LOADING", "LOADING", "ERR", "CLOSEBEFORE", "CLOSEAFTER", "MIDREPLY", ""}
@@ -309,8 +291,8 @@ func runSingle(c Case, kind string) (res obs.Result) {
 		}
 	}
 	pipelining := r.Chance(1, 2)
-	l := &dlog{}
-	cli, err := newClient(r, kind, d, rueidis.ClientOption{DisableRetry: disableRetry, RetryDelay: delayFn(delays, l), AlwaysPipelining: pipelining})
+	l := &ro.ConsultLog{}
+	cli, err := newClient(r, kind, d, rueidis.ClientOption{DisableRetry: disableRetry, RetryDelay: delayFn(delays, l, d), AlwaysPipelining: pipelining})
 	if err != nil {
 		res.Oracle, res.Site, res.Class = "harness: NewClient failed: "+err.Error(), "harness", "setup"
 		return
@@ -321,7 +303,7 @@ func runSingle(c Case, kind string) (res obs.Result) {
 	defer cancel()
 	cancelledAt := -1
 	if ctxMode == 3 {
-		l.hook = func(attempts int) {
+		l.Hook = func(attempts int) {
 			if attempts == 1 {
 				cancel()
 			}
@@ -335,9 +317,7 @@ func runSingle(c Case, kind string) (res obs.Result) {
 			arr = append(arr, a)
 		}
 	}
-	l.mu.Lock()
-	calls := append([]int(nil), l.calls...)
-	l.mu.Unlock()
+	calls := l.Calls()
 	if ctxMode == 3 && len(calls) > 0 {
 		cancelledAt = 0 // the context was cancelled while the first retry decision was being taken
 	}
@@ -373,7 +353,11 @@ func runSingle(c Case, kind string) (res obs.Result) {
 		rs[i] = ticks[i].R
 	}
 	if *propFlag == "C28" {
-		retryOracle(&res, site, cs.retryable, !disableRetry, delays, rs[:len(arr)], ctxMode)
+		seqs := make([]int64, len(arr))
+		for i, a := range arr {
+			seqs[i] = a.Seq
+		}
+		retryOracle(&res, site, cs.retryable, !disableRetry, calls, rs[:len(arr)], seqs, ctxMode)
 		if len(arr) > 0 && ctxMode != 2 && ctxMode != 3 {
 			last := rs[len(arr)-1]
 			if last.Kind != final.Kind || last.Val != final.Val {
@@ -390,19 +374,16 @@ func runSingle(c Case, kind string) (res obs.Result) {
 	return
 }
 
-// retryOracle: every further send after a reply that is not a redirect / expiry must be justified by the policy.
-func retryOracle(res *obs.Result, site string, retryable, retryOn bool, delays []int64, ticks []ro.Reply, ctxMode int) {
-	attempts := 1
+// retryOracle: every further send after a reply that is not a redirect / expiry must be justified by the
+// policy, judged by what the client actually asked RetryDelay between the two sends (the numbering of
+// attempts is the client's business: standalone.Do restarts it after following a REDIRECT).
+func retryOracle(res *obs.Result, site string, retryable, retryOn bool, cons []ro.Consult, ticks []ro.Reply, seqs []int64, ctxMode int) {
 	for i := 0; i+1 < len(ticks); i++ {
 		k := ticks[i].Kind
 		if k == "moved" || k == "ask" || k == "redirect" || k == "expired" {
 			continue
 		}
 		allowed := k == "transport" || k == "loading"
-		d := int64(-1)
-		if attempts-1 < len(delays) {
-			d = delays[attempts-1]
-		}
 		why := ""
 		switch {
 		case !retryable:
@@ -411,17 +392,20 @@ func retryOracle(res *obs.Result, site string, retryable, retryOn bool, delays [
 			why = "DisableRetry is set"
 		case !allowed:
 			why = "the reply " + ticks[i].String() + " is not a retryable failure"
-		case d < 0:
-			why = fmt.Sprintf("RetryDelay(%d) = %d is negative", attempts, d)
-		case d >= int64(time.Hour) && ctxMode == 1:
-			why = "the delay exceeds the time left before the deadline"
-		case ctxMode == 3:
-			why = "the context was cancelled before the retry was sent"
+		default:
+			why = ro.RetryJustified(cons, seqs[i], seqs[i+1], "")
+			if c, ok := ro.LastConsult(cons, seqs[i], seqs[i+1], ""); why == "" && ok {
+				switch {
+				case c.Delay >= int64(time.Hour) && ctxMode == 1:
+					why = fmt.Sprintf("the delay RetryDelay(%d) = %d exceeds the time left before the deadline", c.Attempts, c.Delay)
+				case ctxMode == 3:
+					why = "the context was cancelled before the retry was sent"
+				}
+			}
 		}
 		if why != "" && res.Oracle == "" {
 			res.Oracle, res.Site, res.Class = fmt.Sprintf("re-send after reply %d (%s): %s", i, ticks[i], why), site, "retry-policy"
 		}
-		attempts++
 	}
 }
 
